@@ -39,7 +39,22 @@ fn parse_value<'a>(src: &mut &'a [u8]) -> io::Result<&'a BStr> {
 }
 
 fn parse_string<'a>(src: &mut &'a [u8]) -> io::Result<&'a BStr> {
-    let Some(i) = src.iter().position(|c| *c == DOUBLE_QUOTES) else {
+    const ESCAPE: u8 = b'\\';
+
+    // The closing quotation mark is the first one that is not escaped.
+    let mut is_escaped = false;
+
+    let Some(i) = src.iter().position(|&c| {
+        if is_escaped {
+            is_escaped = false;
+            false
+        } else if c == ESCAPE {
+            is_escaped = true;
+            false
+        } else {
+            c == DOUBLE_QUOTES
+        }
+    }) else {
         return Err(io::Error::from(io::ErrorKind::InvalidData));
     };
 
